@@ -39,7 +39,8 @@ RULE = ("cases = (simulation, fault site, exception class); sites enumerated fro
         "fault was actually injected (the faulted probe call happened); distinct = distinct (mode, site, class)")
 
 EXC = ["ValueError", "KeyError", "RuntimeError", "ZeroDivisionError", "OSError", "ProbeError", "StopIteration",
-       "ProbeStop"]
+       "ProbeStop", "IndexError", "AttributeError", "TypeError", "NotImplementedError", "AssertionError",
+       "FileNotFoundError", "LookupError", "ArithmeticError"]
 
 
 class ProbeStop(StopIteration):
@@ -139,7 +140,7 @@ def enumerate_cases(tier, seed):
             for run in _runs(omode):
                 for step in range(steps):
                     for g, model in PIPES["p2"]:
-                        for exc in classes(first):
+                        for exc in classes(first or (omode == "product" and step == 0)):
                             cases.append({"mode": "obs_seq", "omode": omode, "pipe": "p2", "steps": steps,
                                           "site": {"name": model, "step": step, "a": run["a"], "b": run["b"]}, "exc": exc})
                         first = False
@@ -161,7 +162,9 @@ def enumerate_cases(tier, seed):
         first = True
         for run in _runs("product3"):
             for g, model in PIPES["p2"]:
-                for exc in classes(first and sched == "synchronous"):
+                # every class at every (run, model) site under the synchronous scheduler: a handler for one class on
+                # the path of the later runs only (the first run is executed eagerly) is a separate behaviour
+                for exc in classes(sched == "synchronous" or (first and sched == "threads")):
                     if sched == "controlled":
                         for order in itertools.permutations(range(3)):
                             cases.append({"mode": "obs_dask", "sched": sched, "order": list(order), "omode": "product3",
